@@ -33,9 +33,9 @@ CLAIMS = {
             "the real handler) and by an independent reader (python zipfile + own central/local header parser) comparing members before/after.",
             "Modelled, not verified: the zip crate (0.6.6) reader/writer as modelled in Zip.v (single disk, no zip64/AES records: such archives are outside the modelled class and only judged by the "
             "independent-reader oracle), CP437 table, DEFLATE data opaque.", "DESIGN.md section 5-C03"),
-    "C07": ("PARTIAL. Coq theorems: gzip and pyc-zero-mtime find nothing to change in their own output (all inputs, all epochs); a zip/jar member is not later than the epoch after the clamp; for ANY handler "
+    "C07": ("PARTIAL. Coq theorems: gzip, ar and pyc-zero-mtime find nothing to change in their own output (all inputs, all epochs); a zip/jar member is not later than the epoch after the clamp; for ANY handler "
             "whose byte-level function is idempotent, a fault-free run that replaced a single-link file is followed by a run that reports Noop, and a run that does not report Replaced leaves the file's "
-            "bytes, inode and metadata alone (any fault). Idempotence of the byte-level functions of ar, javadoc, pyc and zip is not yet closed in Coq: it is decided by re-running model and "
+            "bytes, inode and metadata alone (any fault). Idempotence of the byte-level functions of javadoc, pyc and zip is not yet closed in Coq: it is decided by re-running model and "
             "implementation on every output of a modifying first run (all six handlers, generated inputs) and by CLI runs run;run;--check in the four serial/parallel combinations with inode/mtime snapshots.",
             "Modelled, not verified: the parallel controller; the multi-link rewrite path is covered by the tree runs.", "DESIGN.md section 5-C07"),
     "C08": ("Coq theorems for every byte string: none of the modelled handlers (gzip, ar, javadoc, pyc incl. the recursive marshal reader with its depth limit, pyc-zero-mtime) can reach a panic; "
